@@ -17,6 +17,9 @@ import (
 )
 
 func mkfifo(path string, mode uint32) error {
+	if handled, err := verifMkfifo(path); handled {
+		return err
+	}
 	return unix.Mkfifo(path, mode)
 }
 
